@@ -6,6 +6,7 @@ CONSTANTS
   ScanAtomic = TRUE
   StopWhenSettled = TRUE
   Overlap = "always"
+  AllowAging = FALSE
   Emit = TRUE
 INVARIANTS Safety EmitInv
 CHECK_DEADLOCK FALSE
